@@ -222,13 +222,14 @@ ClearLoop(S, h, ord) ==
        IF S.pools[h].st[node].k = "none" THEN Raise(S, "AttributeError")                \* None.clear()
        ELSE LET w == ClearStore(S, h, node) IN IF w.raised # "" THEN w ELSE ClearLoop(w.s, h, Tail(ord))
 
-\* get_batch: [s, raised, ret] with ret = <<node, value>> pairs in store order
+\* get_batch(i, output_names or all): [s, raised, ret] with ret = <<node, value>> pairs in the order of the names
 RECURSIVE GetLoop(_, _, _, _, _)
 GetLoop(S, h, ord, i, acc) ==
   IF ord = <<>> THEN [s |-> S, raised |-> "", ret |-> acc]
   ELSE LET node == Head(ord)
            st == S.pools[h].st[node]
-       IN IF st.k = "none" \/ ~StoreHas(st, i) THEN GetLoop(S, h, Tail(ord), i, acc)
+       IN IF st.k = "absent" THEN [s |-> S, raised |-> "KeyError", ret |-> <<>>]           \* self.stores[output]
+          ELSE IF st.k = "none" \/ ~StoreHas(st, i) THEN GetLoop(S, h, Tail(ord), i, acc)
           ELSE IF st.k = "npy" /\ ~(st.op /\ st.ini) THEN [s |-> S, raised |-> "IndexError", ret |-> <<>>]
           ELSE GetLoop(S, h, Tail(ord), i, Append(acc, <<node, ReadItem(S, st, node, i)>>))
 
@@ -291,7 +292,7 @@ SetContext(S, c) ==
 
 AddBatch(S, c) == R3(AddLoop(S, c.h, c.ns, c.i, c.v))
 RemoveBatch(S, c) == R3(RemoveLoop(S, c.h, S.pools[c.h].order, c.i))
-GetBatch(S, c) == GetLoop(S, c.h, S.pools[c.h].order, c.i, <<>>)
+GetBatch(S, c) == GetLoop(S, c.h, IF c.ns = <<>> THEN S.pools[c.h].order ELSE c.ns, c.i, <<>>)
 Clear(S, c) == R3(ClearLoop(S, c.h, S.pools[c.h].order))
 Flush(S, c) == R3(FlushLoop(S, c.h, S.pools[c.h].order))
 
